@@ -25,6 +25,7 @@ LEVEL_TEXT = (
     "argument, and the checkpoint - never history, counters, draws, calls into scheduler/sampler/loss/model or loop "
     "exits; create_checkpoint writes no calibrator state and draws nothing. Bit-identity of two runs and determinism of "
     "third-party libraries are not decided."
+    " Also (R4b) an attribute that keeps an object which captured the sampler's generator (a frozen scipy distribution, a bound method of the generator) is rebuilt in code reachable from _set_random_state, so that a reseed is not bypassed by a cached object."
 )
 TECHNIQUE = "who-may-call tables, seed-provenance dataflow, must-pass-through CFG queries, control/data non-interference (taint) analysis"
 
